@@ -511,8 +511,20 @@ def _decorate_namespace_property(
         # True if one of the bases provides the function without any precondition, *i.e.*, accepts all the input
         base_accepts_all = False
 
-        # True if the accessor is the very accessor of one of the bases
-        inherited_as_is = False
+        # True if the accessor is the very accessor of one of the bases.
+        #
+        # All the bases are looked at, also those which do not provide ``key`` as a property themselves: an accessor
+        # of one base can be taken over under a name which only *another* base defines
+        # (``class T(A, B): p = A.q``, where ``B`` has a property ``p``).
+        inherited_as_is = any(
+            _is_accessor_of_base_or_ancestor(
+                base=base, key=key, func=func, accessor_name="fget"
+            )
+            for base in bases
+        )
+
+        if inherited_as_is:
+            continue
 
         for base in _providing_bases(bases=bases, key=key):
             if _base_provides(base, key):
